@@ -27,4 +27,15 @@ CLAIMED['C11'] = (
     'DESIGN.md 3/C11',
 )
 
+CLAIMED['C01'] = (
+    'writer/reader record-template agreement with the engine grammar, operator table, leaf-id table, finite-abstraction interpretation of the Python evaluator, engine-call roles (ast)',
+    'Decides that the formula the engine receives is the formula the user wrote: all 23 operator dunders build the class of the Python data model with the '
+    'operands in the right order; for every serialisable class (44 engine tags) the record template extracted from its resolved get_signature, expressed in '
+    'constructor-parameter positions, equals the grammar of bioFormula.cc::processFormula; children are emitted before the record that references them; leaf '
+    'ids come from the right IdManager table (free iff status == 0); every ExpressionOrNumeric parameter is converted. The pure-Python evaluator is decided '
+    'exactly for comparison/logical/min/max operators by exhaustive interpretation over the finite abstraction of their operands, and by extraction for the '
+    'others. Universal over operator kinds and nestings (a record is built per node, independently of its position). Not decided: engine arithmetic.',
+    'DESIGN.md 3/C01',
+)
+
 NOT_APPLICABLE = {f'C{i:02d}': WIP for i in range(1, 20)}
